@@ -164,7 +164,14 @@ func (st *state) logLocked(e Event) int {
 	e.Seq = len(st.log) + 1
 	now := time.Now()
 	e.Ms = now.Sub(st.start).Milliseconds()
-	st.lastEvent = now
+	switch e.K {
+	case "peer_offer_not_taken", "quiet_watchdog_main", "quiet_watchdog_probe",
+		"probe_peer_not_taken", "pending_without_peer":
+		// the harness noting that nothing happened is not an event that
+		// restarts the quiet clock
+	default:
+		st.lastEvent = now
+	}
 	st.log = append(st.log, e)
 	close(st.changed)
 	st.changed = make(chan struct{})
@@ -286,10 +293,19 @@ func (st *state) offer(p *hPeer) bool {
 func (st *state) quietLimit() time.Duration { return QuietWatchdog }
 
 func (st *state) peerActor(p *hPeer) {
+	defer close(p.actorDone)
 	if p.spec.ReconnectOf > 0 {
 		old := st.peers[p.spec.ReconnectOf-1]
+		// Two peers with one address are never connected at the same
+		// time: if the old instance has not left after a second, this
+		// instance is not offered at all.
+		t := time.NewTimer(time.Second)
+		defer t.Stop()
 		select {
 		case <-old.disc:
+		case <-t.C:
+			st.logEv(Event{K: "reconnect_skipped", B: -1, R: -1, P: p.spec.Name})
+			return
 		case <-st.done:
 			return
 		}
@@ -470,6 +486,58 @@ func errKind(err error) string {
 		return "ErrWorkManagerShuttingDown"
 	}
 	return "other:" + err.Error()
+}
+
+// waitChan waits for c; it gives up when the scenario has been completely
+// quiet for the quiet limit.
+func (st *state) waitChan(c chan struct{}) bool {
+	for {
+		t := time.NewTimer(2 * time.Second)
+		select {
+		case <-c:
+			t.Stop()
+			return true
+		case <-st.done:
+			t.Stop()
+			return false
+		case <-t.C:
+			st.mu.Lock()
+			quiet := time.Since(st.lastEvent)
+			st.mu.Unlock()
+			if quiet >= st.quietLimit() {
+				return false
+			}
+		}
+	}
+}
+
+// settle waits until every given batch has a verdict or nothing has happened
+// for d. It only decides when the harness moves on.
+func (st *state) settle(bs []*hBatch, d time.Duration) {
+	for {
+		all := st.wait(func() bool {
+			for _, b := range bs {
+				if len(b.verdicts) == 0 {
+					return false
+				}
+			}
+			return true
+		}, d/3)
+		if all {
+			return
+		}
+		select {
+		case <-st.done:
+			return
+		default:
+		}
+		st.mu.Lock()
+		quiet := time.Since(st.lastEvent)
+		st.mu.Unlock()
+		if quiet >= d {
+			return
+		}
+	}
 }
 
 // waitBatches waits until all given batches have a verdict. It gives up when
@@ -734,6 +802,14 @@ func Run(sc Scenario) *Result {
 // is (or will be) connected; batches that only an idle timer can end when no
 // peer is around are awaited under their own watchdog.
 func (st *state) mainPhase(main []*hBatch) {
+	// First let every actor take its scheduled steps: peers offered (and
+	// left), batches submitted.
+	for _, p := range st.peers {
+		st.waitChan(p.actorDone)
+	}
+	for _, b := range main {
+		st.waitChan(b.queryDone)
+	}
 	stayer := false
 	for _, p := range st.sc.Peers {
 		if p.stays() {
@@ -769,6 +845,11 @@ func (st *state) mainPhase(main []*hBatch) {
 		if !ok {
 			st.addIncon("idle-timeout-verdict-not-seen-within-watchdog")
 		}
+	}
+	if !stayer && len(st.sc.Peers) > 0 {
+		// No peer is certain to stay: let the scripted peers do what they
+		// will with the batches before the probe phase takes over.
+		st.settle(main, 400*time.Millisecond)
 	}
 	if len(st.sc.Peers) == 0 {
 		// Let short hard timers elapse so that hypothesis 11 (hard timeout
